@@ -726,7 +726,10 @@ func (lh *levelHandler) searchL0SST(key []byte) (*kv.Entry, error) {
 		version uint64
 		best    *kv.Entry
 	)
-	for _, table := range lh.tables {
+	// Newest table first: on equal versions (the non-transactional sentinel,
+	// the lock column) the most recently flushed copy must win.
+	for i := len(lh.tables) - 1; i >= 0; i-- {
+		table := lh.tables[i]
 		if table == nil {
 			continue
 		}
